@@ -302,8 +302,8 @@ def C12(ctx):
     gen_and_replay(ctx, "GenMmap", cfg, "mmapvec", "marginal_map / bb on all 256 functions of 3 variables x 12 query lists x %d weight vectors" % (4 if ctx.quick else 48),
                    extra_replay=["--nv", 3, "--seed", ctx.seed], timeout=1800)
     cfg = mkcfg(ctx, "GenMmap_4.cfg", "SPECIFICATION Spec\nCONSTANTS\n  NV = 4\n  PD = 1\n  Sample = %d\n  Seed = %d\n  K = %d\nCHECK_DEADLOCK FALSE\n"
-                % (64 if ctx.quick else 8, ctx.seed % 8, 1 if ctx.quick else 6))
-    gen_and_replay(ctx, "GenMmap", cfg, "mmapvec", "marginal_map / bb on 1/%d of the functions of 4 variables x 48 query lists" % (64 if ctx.quick else 8),
+                % (64 if ctx.quick else 32, ctx.seed % 32, 1 if ctx.quick else 3))
+    gen_and_replay(ctx, "GenMmap", cfg, "mmapvec", "marginal_map / bb on 1/%d of the functions of 4 variables x 48 query lists" % (64 if ctx.quick else 32),
                    extra_replay=["--nv", 4, "--seed", ctx.seed], timeout=2400)
     # the same for maximum expected utility: the utility of EVERY assignment of every list of decision variables, per variable order
     for o in (ORDERS3 if not ctx.quick else [ORDERS3[ctx.seed % 6], ORDERS3[(ctx.seed + 3) % 6]]):
@@ -438,5 +438,5 @@ def C19(ctx):
                         "formula variables from a fixed name list whose byte order is a constant of the specification; single-count mode (no partial assignments)"]
     bindir = build_cli()
     n = 4 if ctx.quick else 24 * TH
-    record_and_validate(ctx, [("cli_%d" % i, ["record", "cli", "--seed", ctx.seed * 1000 + i, "--segments", 25 if ctx.quick else 60,
+    record_and_validate(ctx, [("cli_%d" % i, ["record", "cli", "--seed", ctx.seed * 1000 + i, "--segments", 60 if ctx.quick else 120,
                                               "--bindir", bindir, "--work", ctx.work]) for i in range(n)], "TraceSer", "TraceSer.cfg")
